@@ -20,7 +20,12 @@ from pybufrkit.constants import (BITPOS_START,
                                  NUMERIC_MISSING_VALUES,
                                  PARAMETER_TYPE_TEMPLATE_DATA,
                                  PARAMETER_TYPE_UNEXPANDED_DESCRIPTORS)
-from pybufrkit.errors import PyBufrKitError
+from pybufrkit.errors import PyBufrKitError, UnknownDescriptor
+from pybufrkit.descriptors import (DelayedReplicationDescriptor,
+                                   OperatorDescriptor,
+                                   ReplicationDescriptor,
+                                   UndefinedDescriptor,
+                                   UndefinedSequenceDescriptor)
 from pybufrkit.bitops import get_bit_reader
 from pybufrkit.bufr import BufrMessage
 from pybufrkit.tables import TableGroupCacheManager
@@ -204,6 +209,10 @@ class Decoder(Coder):
         """
         # TODO: Parametrise the "normalize" argument
         bufr_template, table_group = bufr_message.build_template(self.tables_root_dir, normalize=1)
+        # A descriptor of the message that the tables do not know makes the whole message
+        # undecodable, also when the data happen not to reach it, e.g. because it stands
+        # under a replication that is executed zero times or there is no subset at all.
+        ensure_descriptors_defined(bufr_template.members)
 
         state = CoderState(bufr_message.is_compressed.value, bufr_message.n_subsets.value)
 
@@ -503,3 +512,25 @@ def nbytes_to_skip_failed_message(s, idx_start):
         if 2 <= edition <= 4 and nbytes >= 8 and idx_start + nbytes <= len(s):
             return nbytes
     return 1
+
+
+
+def ensure_descriptors_defined(members):
+    """
+    Raise UnknownDescriptor for the first of the given descriptors, including
+    the ones grouped under replication descriptors, that is not defined by the
+    tables. The exception is the descriptor that follows 206YYY. It is a local
+    descriptor whose data width is known and it is to be skipped. Members of
+    Table D sequences are not looked into, not-well-defined local tables are
+    tolerated as long as the data do not reach the undefined members.
+    """
+    follows_206 = False
+    for member in members:
+        if isinstance(member, (UndefinedDescriptor, UndefinedSequenceDescriptor)) and not follows_206:
+            raise UnknownDescriptor('Cannot process descriptor {} of type: {}'.format(
+                member, type(member).__name__))
+        follows_206 = isinstance(member, OperatorDescriptor) and member.operator_code == 206
+        if isinstance(member, ReplicationDescriptor):
+            if isinstance(member, DelayedReplicationDescriptor):
+                ensure_descriptors_defined([member.factor])
+            ensure_descriptors_defined(member.members)
